@@ -2,6 +2,7 @@ import OrbitModel.Driver.Transport
 import OrbitModel.Model.Path
 import OrbitModel.Model.Lifecycle
 import OrbitModel.Model.OpenCreate
+import OrbitModel.Model.Params
 /-!
 # Driver: address lines (C14) and snapshot lines (C13)
 -/
@@ -479,6 +480,13 @@ def Full.step (f : Full) (line : String) : Full :=
         w.fail "C14" "create" s!"peer {toks.getD 1 ""}: Create over an existing local database succeeded without overwrite: the options value had been used for Open(name, Create: true) before, which wrote Overwrite={arg toks "overwrite"} into it" else w }
   | "reuseac" =>
     let w := bump f.w
+    -- model (`Params.run useCopy`): every call works on a copy of the caller's value, which stays as it was
+    let calls := [(toks.getD 1 "", "a"), (toks.getD 2 "", "b")]
+    let made := Params.run Params.useCopy {} calls
+    let w := if arg toks "second" == "ok" && [arg toks "write"] != (made.getD 1 {}).write then
+        w.fail "corr" "reuseac" s!"second database: model write list {(made.getD 1 {}).write}, implementation [{arg toks "write"}]" else w
+    let w := if arg toks "first" == "ok" && arg toks "left" != "-" then
+        w.fail "corr" "reuseac" s!"the caller's access controller parameters came back changed: {arg toks "left"} (model: untouched)" else w
     -- with no write list given, the creator's own id is the default: whoever used the parameters value before
     { f with w := if arg toks "second" == "ok" && arg toks "write" != toks.getD 2 "" then
         w.fail "C14" "acl" s!"peer {toks.getD 2 ""} created a database with no write list given and its write list is [{arg toks "write"}], not its own id: the access controller parameters value had been handed to peer {toks.getD 1 ""}'s DetermineAddress before, which wrote into it" else w }
